@@ -28,18 +28,23 @@ func (cp *compiler) chunkOp(n *parse.Chunk) *chunkOp {
 }
 
 func (op *chunkOp) exec(fm *Frame) Exception {
+	VerifTrace(fm, "chunk.begin", fm.background)
 	for _, subop := range op.pipelines {
 		exc := subop.exec(fm)
 		if exc != nil {
+			VerifTrace(fm, "chunk.exc", fm.background)
 			return exc
 		}
 	}
 	// Check for interrupts after the chunk.
 	// We also check for interrupts before each pipeline, so there is no
 	// need to check it before the chunk or after each pipeline.
+	VerifTraceLock()
 	if fm.Canceled() {
+		VerifTraceUnlock(fm, "chunk.int", fm.background)
 		return fm.errorp(op, ErrInterrupted)
 	}
+	VerifTraceUnlock(fm, "chunk.ok", fm.background)
 	return nil
 }
 
@@ -83,9 +88,13 @@ func (fop formOwnedPort) close(p *Port) {
 }
 
 func (op *pipelineOp) exec(fm *Frame) Exception {
+	vpid := VerifTraceID()
+	VerifTraceLock()
 	if fm.Canceled() {
+		VerifTraceUnlock(fm, "pipe.abort", vpid, fm.background)
 		return fm.errorp(op, ErrInterrupted)
 	}
+	VerifTraceUnlock(fm, "pipe.start", vpid, fm.background, op.bg)
 
 	if op.bg {
 		fm = fm.Fork()
@@ -149,11 +158,14 @@ func (op *pipelineOp) exec(fm *Frame) Exception {
 			for i, fop := range fops {
 				fop.close(newFm.ports[i])
 			}
+			VerifTrace(fm, "pipe.formdone", vpid, fm.background)
 			wg.Done()
 		}
 		if i == nforms-1 && !op.bg {
+			VerifTrace(fm, "pipe.form", vpid, fm.background, 0)
 			f(form, fops, &excs[i])
 		} else {
+			VerifTrace(fm, "pipe.form", vpid, fm.background, 1)
 			go f(form, fops, &excs[i])
 		}
 	}
@@ -177,6 +189,7 @@ func (op *pipelineOp) exec(fm *Frame) Exception {
 		return nil
 	}
 	wg.Wait()
+	VerifTrace(fm, "pipe.end", vpid, fm.background)
 	return fm.errorp(op, MakePipelineError(excs))
 }
 
